@@ -6,7 +6,7 @@ From Coq Require Import List NArith Bool Lia.
 Import ListNotations.
 From PF Require Import Opcodes Config Entropy Sim Gen Envelope SrcPrims SrcDrvPrims.
 From PF.gen Require Import SrcDrv.
-From PF.proofs Require Import EntropyP.
+From PF.proofs Require Import EntropyP Tail.
 Require Import PF.SrcEqDrv.
 Local Open Scope N_scope.
 
@@ -56,6 +56,22 @@ Print Assumptions C11_src_decisions.
 Theorem C11_src_cleanup : forall v s, src_cleanup v s = cleanup_for_stop v s.
 Proof. exact src_cleanup_eq. Qed.
 Print Assumptions C11_src_cleanup.
+
+(* hence what was proved of the model's tail holds of the source's: at most 2 * depth + 1 opcodes, each one TUPLE, NONE, POP
+   (protocols 0 and 1 only) or TUPLE2 / TUPLE3 (protocols 2 and later only) *)
+Theorem C11_src_tail : forall v s,
+  let ops := fst (src_cleanup v s) in
+  (length ops <= 2 * length (stk s) + 1)%nat
+  /\ (forall o, In o ops ->
+        o = TUPLE \/ o = NONE \/ (v_lt2 v = true /\ o = POP)
+        \/ (v_lt2 v = false /\ (o = TUPLE2 \/ o = TUPLE3))).
+Proof. intros v s. cbv zeta. rewrite src_cleanup_eq. exact (cleanup_facts v s). Qed.
+Print Assumptions C11_src_tail.
+
+(* `>=` on Version in the source is derive(PartialOrd) = declaration order = the order of the protocol numbers *)
+Theorem C11_src_version_order : map vnum src_version_order = [0; 1; 2; 3; 4; 5].
+Proof. exact src_version_order_ok. Qed.
+Print Assumptions C11_src_version_order.
 
 (* FRAME: nine bytes reserved = the opcode and its 8-byte length, left out of the length that is written *)
 Theorem C06_src_frame : src_frame_reserve = 9 /\ src_frame_skip = src_frame_reserve
